@@ -16,6 +16,9 @@ SLEEP = 0.2
 MAX_QUERIES_PAST_DEADLINE = 3
 
 
+TICK = 0.3   # single-process search: virtual seconds per enumerated dependency path
+
+
 def run_under(prefix, texts, cpu, timeout, parallel=True, clock_jump=None, sigterm_ignored=False):
     import osaca.semantics.kernel_dg as kd
     fam = c05._FAM["x86"]
@@ -23,7 +26,8 @@ def run_under(prefix, texts, cpu, timeout, parallel=True, clock_jump=None, sigte
     parser, kernel = dgfam.parsed_kernel("x86", texts, via_parse_file=True)
     sem.add_semantics(kernel)
     w = sched.World(prefix, cpu, max_idle_wakes=None if (timeout != -1 and timeout < 5) else 1,
-                    clock_jump=clock_jump, sigterm_ignored=sigterm_ignored)
+                    clock_jump=clock_jump, sigterm_ignored=sigterm_ignored,
+                    tick_per_path=0.0 if parallel else TICK)
     undo = sched.install(w, kd)
     old_thr = kd.KernelDG.INSTRUCTION_THRESHOLD
     kd.KernelDG.INSTRUCTION_THRESHOLD = 1 if parallel else 10 ** 6
@@ -104,6 +108,10 @@ def explore_config(item):
         elif parallel and elapsed > timeout + SLEEP + 1e-9:
             bad.append(("late", choices, "returned after %.2f virtual s, timeout %.2f + one poll "
                         "interval allowed" % (elapsed, timeout)))
+        elif not parallel and elapsed > timeout + TICK + 1e-9 and not jumped:
+            bad.append(("late", choices, "single-process search returned after %.2f virtual s "
+                        "(%.1f s per enumerated path), timeout %.2f + one path allowed"
+                        % (elapsed, TICK, timeout)))
         elif not parallel and jumped and queries > MAX_QUERIES_PAST_DEADLINE:
             bad.append(("late", choices, "the clock passed the deadline (jump by timeout + 1000 s) "
                         "but the search went on and asked for the time %d more times (a search "
@@ -205,7 +213,7 @@ def run(ctx):
             ("k5", 3, 0.4, 2, True), ("k4", 2, 50, 2, True), ("k4", 2, -1, None, True),
             # single-process search: the clock may jump past the timeout at any query
             ("k4", 1, 1, None, False), ("k5", 1, 1, None, False), ("k6", 1, 2, None, False),
-            ("k6", 1, -1, None, False),
+            ("k6", 1, -1, None, False), ("k4", 1, 0, None, False), ("k5", 1, 0, None, False),
             # kernels 1500 lines into a file; a calling process that ignores SIGTERM
             ("k4hi", 2, 0.2, None, True), ("k6hi", 3, -1, 2, True), ("k4hi", 1, 1, None, False),
             ("k4!t", 2, 0.2, None, True), ("k5!t", 3, 0.4, 2, True)]
